@@ -117,6 +117,7 @@ MUTATING = {
 }
 
 OBSERVER = {
+    "obs_roundtrip",
     "obs_str",
     "obs_sample",
     "obs_duration",
@@ -147,6 +148,12 @@ FORK = {"fork"}
 
 
 def _detuning_map(sut: SUT, weights: dict):
+    # a replay document stores the weights through JSON, which turns integer
+    # qubit ids into strings: key them by the register's own ids again
+    byid = {str(k): v for k, v in weights.items()}
+    ids = list(sut.register.qubit_ids)
+    if all(str(q) in byid for q in ids) and len(byid) == len(ids):
+        weights = {q: byid[str(q)] for q in ids}
     return sut.register.define_detuning_map(weights)
 
 
@@ -280,6 +287,19 @@ def _do(sut: SUT, op: dict) -> Any:
         return seq.to_abstract_repr(skip_validation=op.get("skip", True))
     if k == "obs_legacy":
         return seq._serialize()
+    if k == "obs_roundtrip":
+        # serialise + deserialise into a SEPARATE object (the run goes on with the
+        # original): used where continuing on the restored object is not possible
+        # (the abstract representation turns integer qubit ids into strings)
+        from . import observe
+
+        if op["kind"] == "abstract":
+            s = seq.to_abstract_repr(skip_validation=op.get("skip", True))
+            r = Sequence.from_abstract_repr(s)
+        else:
+            s = seq._serialize()
+            r = Sequence._deserialize(s)
+        return {"snap": observe.snapshot(r), "seq": r, "doc": s}
     if k == "obs_draw":
         import matplotlib.pyplot as plt
 
